@@ -28,7 +28,7 @@ RULE = (
 BUDGET = {'quick': (60000, 55), 'thorough': (4_000_000, 600)}
 COMPONENTS = common.COMPONENTS
 ASSUMPTIONS = ['FIFO ready queue', 'future().cancel() is not issued here (C04 covers it)', 'hooks do not raise']
-EXPECTED_COUNTERS = ['probe:listener_removes_itself_in_terminal_notification', 'probe:failed_while_paused', 'probe:kill_while_paused', 'probe:kill_during_step', 'probe:kill_from_listener',
+EXPECTED_COUNTERS = ['kind:workchain', 'probe:listener_removes_itself_in_terminal_notification', 'probe:failed_while_paused', 'probe:kill_while_paused', 'probe:kill_during_step', 'probe:kill_from_listener',
                      'probe:terminated_while_paused', 'final:finished', 'final:excepted', 'final:killed']
 KINDS = ['pause', 'play', 'kill', 'resume']
 KINDS_WITH_FAIL = KINDS + ['fail']
@@ -60,10 +60,21 @@ def systematic(tier):
 
 
 def random_case(rng, tier):
-    program = programs.gen_process_program(rng, PROGRAM_CFG)
+    is_wc = rng.random() < 0.2
+    if is_wc:
+        program = common.gen_workchain_with_awaitables(rng)
+    else:
+        program = programs.gen_process_program(rng, PROGRAM_CFG)
     ticks, notify, _ = common.dry_run(program)
     max_actions = 4 if tier == 'quick' else 6
-    with_fail = rng.random() < 0.3
+    with_fail = rng.random() < 0.3 and not is_wc
+    if is_wc:
+        schedule = common.gen_schedule(rng, ['pause', 'play', 'kill', 'complete', 'complete'], max_actions, ticks, notify)
+        for action in schedule:
+            if action['act'] == 'complete':
+                fut = rng.randrange(max(program.get('n_futures', 1), 1))
+                action.update(fut=fut, how=rng.choice(['value', 'value', 'value', 'exc']), v=f'v{fut}')
+        return {'program': program, 'schedule': schedule, 'opts': {'cleanups': rng.randint(1, 3)}}
     if with_fail:
         # terminations caused from outside the step: fail() and callbacks that raise
         program = programs.gen_process_program(rng, dict(PROGRAM_CFG, p_fail_callback=0.5, effects=['out', 'callsoon', 'callsoon']))
@@ -76,7 +87,14 @@ def random_case(rng, tier):
 
 
 def shrink(case):
-    return common.shrink_control(case)
+    if case['program'].get('kind') == 'workchain':
+        import copy
+        for i in range(len(case['schedule'])):
+            candidate = copy.deepcopy(case)
+            del candidate['schedule'][i]
+            yield candidate
+        return
+    yield from common.shrink_control(case)
 
 
 def run(case):
@@ -130,7 +148,25 @@ def _oracle(engine, result, case, drive):
     if not future.done():
         result.violate('future_not_resolved', state, f'process is {state} but its future is not done')
     else:
-        if state == 'finished':
+        if state == 'finished' and case['program'].get('kind') == 'workchain':
+            result.counters['kind:workchain'] += 1
+            reference = common.reference_run(case['program'], {'cleanups': 0})
+            problems = []
+            if future.cancelled() or future.exception() is not None:
+                problems.append('future does not hold a result')
+            elif future.result() != proc.outputs:
+                problems.append(f'future result {future.result()!r} != outputs {proc.outputs!r}')
+            all_values = all(r.action.get('how', 'value') == 'value' for r in engine.records if r.action['act'] == 'complete')
+            if all_values and reference['outcome'].get('state') == 'finished':
+                mine = common.outcome(proc)
+                for key in ('result', 'successful', 'outputs'):
+                    if mine.get(key) != reference['outcome'].get(key):
+                        problems.append(f'{key} {mine.get(key)!r} != uninterrupted run {reference["outcome"].get(key)!r}')
+            if proc.successful() != proc.is_successful:
+                problems.append('successful() and is_successful disagree')
+            for problem in problems:
+                result.violate('finished_reports', problem.split(' ')[0], problem)
+        elif state == 'finished':
             model = programs.model_run(case['program'])
             problems = []
             if future.cancelled() or future.exception() is not None:
@@ -152,7 +188,7 @@ def _oracle(engine, result, case, drive):
             for problem in problems:
                 result.violate('finished_reports', problem.split(' ')[0], problem)
         elif state == 'excepted':
-            candidates = list(world.program_errors) + list(world.callback_errors)
+            candidates = list(world.program_errors) + list(world.callback_errors) + list(world.awaitable_errors.values())
             raised = next((c for c in candidates if c is proc.exception()), None)
             if raised is None and candidates:
                 raised = candidates[-1]
@@ -182,7 +218,8 @@ def _oracle(engine, result, case, drive):
             if not proc.killed():
                 problems.append('killed() is False')
             texts = [e[3] for e in events if e[0] == 'call' and e[2] == 'kill' and e[4]]
-            program_texts = [s['ret'].get('msg') for s in case['program']['steps'] if s['ret']['t'] == 'kill']
+            program_texts = [] if case['program'].get('kind') == 'workchain' else \
+                [s['ret'].get('msg') for s in case['program']['steps'] if s['ret']['t'] == 'kill']
             message = proc.killed_msg()
             recorded = message.get('message') if isinstance(message, dict) else message
             allowed = set(texts[:1]) | set(program_texts)
